@@ -99,11 +99,13 @@ def corpus(only=None, repo="/repo"):
             continue
         meta = json.load(open(mp))
         pid = meta.get("property")
-        if only and pid != only:
-            continue
         kind = meta.get("kind", "mutant")
-        patch = os.path.join(root, name, "patch.diff")
         check_props = meta.get("check_with", [pid])
+        if only and (only not in check_props):
+            continue
+        if only:
+            check_props = [only]
+        patch = os.path.join(root, name, "patch.diff")
         r = run_patch(patch, [p for p in check_props if p in props.PROPS], repo)
         if r["status"] == "skipped":
             rows.append((name, pid, kind, "skipped", r["reason"]))
